@@ -1,4 +1,4 @@
-import ProductMD.Proofs.Nvra
+import ProductMD.Proofs.NvraFix
 /-!
 # C13 — RPM `name-[epoch:]version-release.arch` strings are parsed back to their parts
 
@@ -112,6 +112,124 @@ theorem C13_parse_epoch_limit (dir name : Str) (e : Nat) (ver rel arch : Str) (r
   | nil => exact absurd hs (natStr_ne_nil e)
   | cons d ds => rw [hs] at hv; simp [Spec.nvraGroups, List.lookup, hv, Except.map]
 
+/-! ### the parser on every string -/
+theorem groups_exact (q : Str × Option Str × Str × Str × Str) (d : Option Str) :
+    let caps : Caps := PM.NvraExact.capsOf q ++ PM.NvraExact.dcap d
+    namedGroup Spec.nvraGroups caps "name" = some q.1 ∧ namedGroup Spec.nvraGroups caps "version" = some q.2.2.1
+    ∧ namedGroup Spec.nvraGroups caps "release" = some q.2.2.2.1 ∧ namedGroup Spec.nvraGroups caps "arch" = some q.2.2.2.2
+    ∧ namedGroup Spec.nvraGroups caps "epoch" = q.2.1 := by
+  obtain ⟨n, ep, v, rl, a⟩ := q
+  cases ep <;> cases d <;>
+    simp [namedGroup, Spec.nvraGroups, List.lookup, Caps.get, PM.NvraExact.capsOf, PM.NvraExact.epc, PM.NvraExact.dcap]
+
+/-- **Exact behaviour of `parse_nvra` on EVERY string** (any length, any content: odd names, several slashes, colons,
+line feeds, Unicode digits; no domain hypothesis): the regex-driven `parseNvra` equals the directly written
+`Spec.parseNvraDirect` —
+strip one trailing `.rpm`; look only at the first line, and require that nothing or a single final line feed follows it;
+drop the directory through the LAST `/` after which the rest still parses (otherwise no directory is dropped at all);
+name = up to the last `-` after which `[epoch:]version-release.arch` can still be found; epoch = the whole leading digit
+run if a `:` follows it and the rest still splits (otherwise digits and colon stay in the version); version = up to the
+last `-` that still has a `.` to its right; release = up to the last `.`; arch = the rest; `int()` of the epoch. -/
+theorem C13_parser_exact (s : Str) : parseNvra s = Spec.parseNvraDirect s := by
+  unfold parseNvra Spec.parseNvraDirect
+  simp only
+  rw [C13_pattern.1]
+  cases h : Spec.p1 (isEol ((stripRpm s).dropWhile Cls.any.mem)) ((stripRpm s).takeWhile Cls.any.mem) with
+  | none => rw [PM.NvraExact.nvra_exact_none _ h]
+  | some q =>
+    obtain ⟨d, hd⟩ := PM.NvraExact.nvra_exact_some _ q h
+    rw [hd]
+    simp only [nvraOfCaps, C13_pattern.2]
+    obtain ⟨h1, h2, h3, h4, h5⟩ := groups_exact q d
+    simp only [h1, h2, h3, h4, h5]
+    obtain ⟨n, ep, v, rl, a⟩ := q
+    cases ep with
+    | none => rfl
+    | some D =>
+      have hne := PM.NvraExact.p1_epoch_ne h
+      cases D with
+      | nil => exact absurd rfl hne
+      | cons d0 ds => rfl
+
+/-- Corollary: a string in which anything but one final line feed follows the first line is refused, whatever it
+contains (`.` does not match a line feed, `$` only matches at the end or before a final line feed). -/
+theorem C13_multiline_refused (s : Str) (h : isEol ((stripRpm s).dropWhile Cls.any.mem) = false) :
+    parseNvra s = .error .valueError := by
+  rw [C13_parser_exact]
+  unfold Spec.parseNvraDirect
+  simp only [h, PM.NvraExact.p1_false]
+
+/-- **Canonical re-formatting is a fixed point for EVERY parse result**, not only on the documented shape: whatever
+string `s` parses (odd names, slashes or colons in version/release/arch, Unicode digits or leading zeros in the epoch,
+a final line feed …), the parts re-formatted as `name-epoch:version-release.arch` parse to the same parts.  The one
+exception is an architecture that is literally `rpm` (the canonical string then ends in `.rpm`, which is stripped). -/
+theorem C13_fixpoint_exact (s : Str) (p : Nvra) (h : parseNvra s = .ok p) (ha : p.arch ≠ some ['r', 'p', 'm']) :
+    parseNvra (canonNvra p) = .ok p := by
+  rw [C13_parser_exact] at h ⊢
+  unfold Spec.parseNvraDirect at h
+  simp only at h
+  have hline := PM.NvraExact.line_split (stripRpm s)
+  cases he : isEol ((stripRpm s).dropWhile Cls.any.mem) with
+  | false => rw [he, PM.NvraExact.p1_false] at h; cases h
+  | true =>
+    rw [he] at h
+    cases hp1 : Spec.p1 true ((stripRpm s).takeWhile Cls.any.mem) with
+    | none => rw [hp1] at h; cases h
+    | some q =>
+      obtain ⟨n, ep, v, rl, a⟩ := q
+      rw [hp1] at h
+      simp only at h
+      obtain ⟨⟨pre, P, hshape⟩, hdot⟩ := PM.NvraFix.p1_shape hp1
+      -- the epoch value and its canonical digits
+      have hE : ∃ E, p = { name := some n, epoch := E, version := some v, release := some rl, arch := some a }
+          ∧ (natStr E).length ≤ intMaxStrDigits := by
+        cases ep with
+        | none =>
+          simp only [Except.map, Except.ok.injEq] at h
+          exact ⟨0, h.symm, Nat.le_trans (natStr_len 0 1 (by decide) (by decide)) (by decide)⟩
+        | some D =>
+          simp only at h
+          cases hv : pyIntDigits D with
+          | error e => rw [hv] at h; cases h
+          | ok E =>
+            rw [hv] at h
+            simp only [Except.map, Except.ok.injEq] at h
+            exact ⟨E, h.symm, PM.NvraFix.pyIntDigits_canon hv⟩
+      obtain ⟨E, rfl, hlen⟩ := hE
+      have hcanon : canonNvra { name := some n, epoch := E, version := some v, release := some rl, arch := some a }
+          = PM.NvraFix.canonStr n (natStr E) v rl a := by
+        simp [canonNvra, pctS, PM.NvraFix.canonStr]
+      have harch : a ≠ ['r', 'p', 'm'] := fun e => ha (by rw [e])
+      -- no line feed in the canonical string
+      have hnl : '\n' ∉ PM.NvraFix.canonStr n (natStr E) v rl a := by
+        have hx := hline.2.1
+        rw [hshape] at hx
+        have hd : '\n' ∉ natStr E := fun hm => by
+          have := (natStr_dig E _ hm).cls
+          rw [PM.IdProof.nl_not_digit] at this; cases this
+        simp only [PM.NvraFix.canonStr, List.mem_append, List.mem_cons, not_or] at hx ⊢
+        exact ⟨hx.2.1, by decide, hd, by decide, hx.2.2.2.2.1, by decide, hx.2.2.2.2.2.2.1, by decide, hx.2.2.2.2.2.2.2.2⟩
+      have hstrip : stripRpm (PM.NvraFix.canonStr n (natStr E) v rl a) = PM.NvraFix.canonStr n (natStr E) v rl a := by
+        have := stripRpm_other (n ++ '-' :: (natStr E ++ ':' :: (v ++ '-' :: rl))) a hdot harch
+        simpa [PM.NvraFix.canonStr] using this
+      obtain ⟨hl1, hl2⟩ := PM.NvraFix.line_of_no_nl hnl
+      have hp1' := PM.NvraFix.p1_canon hp1 (natStr_ne_nil E) (fun c hc => (natStr_dig E c hc).cls)
+      rw [hcanon]
+      unfold Spec.parseNvraDirect
+      simp only [hstrip, hl1, hl2]
+      have : isEol ([] : Str) = true := rfl
+      rw [this, hp1']
+      simp only [pyIntDigits_natStr E hlen, Except.map]
+
+/-- What `Rpms._check_nevra` does outside the documented shape (the mechanism of finding F31, owned by C12): the
+"epoch is present" test is `':' in nevra`, so a colon in the directory part lets a name WITHOUT epoch through; it is
+filed under epoch 0. -/
+theorem C13_check_nevra_colon_elsewhere_witness :
+    (checkNevra "a:b/foo-1.0-1.src".toList).toOption
+      = some ("foo-0:1.0-1.src".toList,
+              { name := some "foo".toList, epoch := 0, version := some "1.0".toList, release := some "1".toList,
+                arch := some "src".toList }) := by decide +kernel
+
 /-! ### the property's own alphabets and the library's architecture table -/
 /-- letters, digits, `.`, `_`, `+` and the segment separator `-` -/
 def nameChar (c : Char) : Bool := c.isAlphanum || c == '.' || c == '_' || c == '+' || c == '-'
@@ -196,5 +314,12 @@ example : (parseNvra "Packages/g/glibc-common-2-12:2.17-78.el7.x86_64.rpm".toLis
              release := some "78.el7".toList, arch := some "x86_64".toList } := by decide +kernel
 example : (match parseNvra "a-1-1".toList with | .error .valueError => true | _ => false) = true := by decide +kernel
 example : "x86_64".toList ∈ Gen.RPM_ARCHES := by decide
+-- outside the property's domain: a slash after the last admissible split stays in the architecture; a digit run
+-- followed by a colon is only an epoch when the rest still splits
+example : (Spec.parseNvraDirect "a-1-1.x/b".toList).toOption
+    = some { name := some "a".toList, epoch := 0, version := some "1".toList, release := some "1".toList,
+             arch := some "x/b".toList } := by decide +kernel
+example : (Spec.parseNvraDirect "n-7:v.w".toList).toOption = none := by decide +kernel
+example : isEol ("a-1-1.x\n\n".toList.dropWhile Cls.any.mem) = false := by decide
 
 end PM
